@@ -219,28 +219,3 @@ fn c11_ci_z_normal_total() {
         Err(_) => assert!(false, "undocumented error variant"),
     }
 }
-
-// ---- frame conditions (C02 / C10 / C17: an interval producer is a function of its arguments).  The contract spliced onto the
-// real function by kani/contracts.json has no `modifies` clause, so Kani's contract instrumentation checks every assignment
-// made during the call: anything other than locals and fresh allocations (a static, a thread-local, a memo table) fails
-// "Check that ... is assignable".  z_value is stubbed: statrs' lazily initialised distribution object is outside the claim.
-#[kani::proof_for_contract(ci_wilson)]
-#[kani::stub(crate::stats::z_value, det_z_value)]
-fn c02_frame_ci_wilson_writes_no_hidden_state() {
-    let c = any_confidence();
-    let n: usize = kani::any();
-    let k: usize = kani::any();
-    let r = ci_wilson(c, n, k);
-    kani::cover!(r.is_ok());
-    kani::cover!(r.is_err());
-}
-#[kani::proof_for_contract(ci_z_normal)]
-#[kani::stub(crate::stats::z_value, det_z_value)]
-fn c02_frame_ci_z_normal_writes_no_hidden_state() {
-    let c = any_confidence();
-    let n: usize = kani::any();
-    let k: usize = kani::any();
-    let r = ci_z_normal(c, n, k);
-    kani::cover!(r.is_ok());
-    kani::cover!(r.is_err());
-}
